@@ -22,5 +22,14 @@ def check(ctx):
         reach = mir.reachable_from([st.generate.key], include_trait_impls=True)
         n = check_err_discipline(mir, reach, res)
         res.floor("calls producing Result<_, KikiErr> tracked", n, 20)
+    # necessary conditions of the LALR(1) construction this property presupposes (imported from C17's clause check)
+    from .c17 import run_rules as c17_rules
+    from ..report import Result as _R2
+    r17 = _R2("C17", ctx["tier"], "other")
+    c17_rules(ctx, r17)
+    res.rule("R-C17-* (imported)", "the five structural necessary conditions of the LALR(1) construction (C17 clauses N1-N5: symmetric core equality, change flag covers all mutated components, re-enqueue exactly on growth, closure/look-ahead augmentation, a transition per symbol) — this property's statement presupposes the automaton is the LALR(1) automaton")
+    res.inst("R-C17-* (imported)", "C17-clauses", "", True, "%d instances, %d violations" % (len(r17.instances), len(r17.violations)))
+    for v in r17.violations:
+        res.violate(v.rule, v.key, v.where, v.msg, v.detail)
     res.assume("not decided here: exactness of the automaton's look-ahead sets and state merging (C17), hence not the 'never rejects a conflict-free grammar' half")
     return finish(res, "Clause-level decision on MIR: single writer of the action map guarded by a miss on the same key; equality of actions is the only non-error outcome of a hit; the state/item scan is exhaustive; every KikiErr-carrying Result on every path to generate's caller is propagated. Together: a conflict present in the automaton handed to the table builder cannot go unreported. The look-ahead computation itself is out of scope (declined under C17).")
